@@ -505,8 +505,9 @@ class Check:
             ev["level"] = "other"
             ev["coverage"]["explanation"] = (self.explanation + " | run produced no decided obligations: "
                                              + "; ".join(self.messages))[:2000] or "no obligations decided"
-        os.makedirs(os.path.join(VERIF, "evidence"), exist_ok=True)
-        json.dump(ev, open(os.path.join(VERIF, "evidence", self.prop + ".json"), "w"), indent=1)
+        evdir = os.environ.get("VERIF_EVIDENCE_DIR", os.path.join(VERIF, "evidence"))
+        os.makedirs(evdir, exist_ok=True)
+        json.dump(ev, open(os.path.join(evdir, self.prop + ".json"), "w"), indent=1)
         for m in self.messages:
             print("NOTE: " + m)
         print("%s %s: %d instances, %d/%d obligations discharged, %d violations, %d known, %d not explored, %.0fs, exit %d"
